@@ -59,3 +59,34 @@ PROPS["C20"] = dict(
                  "UBSan alignment check disabled: popcount(void*) reads unaligned words by design",
                  SAN_ASSUME],
 )
+
+# ----------------------------------------------------------------------------- C18
+PROPS["C18"] = dict(
+    units={"sv": dict(src=["harness/C18_string_view.cpp"])},
+    quick=[
+        R("sv", "plain", 16, 3906, ["mode=exh"], partition=True),
+        R("sv", "asan", 16, 977, ["mode=exh", "stride=4"], partition=True),
+        R("sv", "asan", 4, 40, ["mode=rand"]),
+    ],
+    thorough=[
+        R("sv", "plain", 16, 3906, ["mode=exh", "full=1"], partition=True, timeout=7200),
+        R("sv", "asan", 16, 3906, ["mode=exh"], partition=True, timeout=7200),
+        R("sv", "asan", 16, 3000, ["mode=rand"], timeout=7200),
+    ],
+    rule="exhaustive mode: one case per haystack out of all 3906 byte strings of length 0..5 over "
+         "{00,'a','b',80,FF}; each is combined with all 156 needles of length 0..3 (plus itself and "
+         "its one-byte extensions), every pos in {0..size+2,npos-1,npos} and n in {0..size+2,npos}, "
+         "through every query method/operator that std::string_view also has; results compared by "
+         "value (sign for compare, bytes+count for copy, exception kind). random mode: strings up to "
+         "64 bytes over 4 alphabets. Classes: haystack length (exh) and alphabet x length class (rand); "
+         "distinct haystacks are counted in counters.exh_haystacks.",
+    exhaustive=dict(
+        quick="all (haystack<=5, needle<=3) pairs over the 5-letter alphabet x all pos/n for every "
+              "method in the uninstrumented build (the ASan build covers every 4th haystack, residue "
+              "chosen by the seed); needle-side (pos2,n2) of the 5-argument compare sampled",
+        thorough="as quick, with all needle-side (pos2,n2) combinations as well"),
+    require=dict(any=["exh_haystacks", "calls_compared"]),
+    assumptions=["libstdc++'s std::string_view is the reference, only where its behaviour is defined "
+                 "(remove_prefix/suffix with n<=size, front/back on non-empty views)",
+                 SAN_ASSUME],
+)
